@@ -145,17 +145,24 @@ func (p *Parser) ParseWithRecovery(tokens []token.Token) ([]ast.Statement, []err
 
 // ParseWithRecoveryFromModelTokens parses tokenizer output with error recovery.
 func (p *Parser) ParseWithRecoveryFromModelTokens(tokens []models.TokenWithSpan) ([]ast.Statement, []error) {
-	converted, err := convertModelTokens(tokens)
+	// Convert with the position mapping so that every collected error carries the line and
+	// column of the token the parser stopped at
+	result, err := convertModelTokensWithPositions(tokens)
 	if err != nil {
 		return nil, []error{fmt.Errorf("token conversion failed: %w", err)}
 	}
-	return p.parseWithRecovery(converted)
+	return p.parseWithRecoveryPositions(result.Tokens, result.PositionMapping)
 }
 
 // parseWithRecovery is the internal implementation shared by both public APIs.
 func (p *Parser) parseWithRecovery(tokens []token.Token) ([]ast.Statement, []error) {
+	return p.parseWithRecoveryPositions(tokens, nil)
+}
+
+// parseWithRecoveryPositions is parseWithRecovery with an optional token position mapping.
+func (p *Parser) parseWithRecoveryPositions(tokens []token.Token, positions []TokenPosition) ([]ast.Statement, []error) {
 	p.tokens = tokens
-	p.positions = nil
+	p.positions = positions
 	p.currentPos = 0
 	if len(tokens) > 0 {
 		p.currentToken = tokens[0]
